@@ -493,18 +493,34 @@ class SchedEngine(Engine):
                 d('I-own', 'a call that computed did not return its own result', got=r, computed=c['computed'])
         if obs['cap'] and incomplete:
             d('I-progress', 'step cap reached with calls still running', steps=obs['steps'])
-        # no recomputation after a completed call (no forced writer overlapping)
-        # (a writer is any call that computed and saved - forced, or itself a reader that met a writer in the middle of its
-        # save: whoever tries to load while the entry is being rewritten finds a partial file and has to compute)
-        forced = [c for c in calls if c['op'] == 'goc' and (c['force'] or c['computed']) and 'return' in c]
-        for c in calls:
-            if c['op'] != 'goc' or c['force'] or 'return' not in c or not c['computed']:
+        # no recomputation after a completed call. A non-forced call finds the entry under the lock and loads it outside the
+        # lock; it may compute only if a *legitimate* writer started computing after the call was invoked (and before the call
+        # itself computes): that writer's save is what the load ran into. Legitimate writers: forced calls; calls to which no
+        # entry can have been visible (nothing returned and nobody already computing when they were invoked); and calls
+        # excused, recursively, by a legitimate writer (a reader that met a rewrite rewrites itself and the next reader can
+        # meet that rewrite).
+        def cstart(c):
+            return comps[c['computed'][0]]['start'] if c.get('computed') and comps.get(c['computed'][0]) else None
+
+        wr = sorted([c for c in calls if c['op'] == 'goc' and c.get('computed') and 'return' in c and cstart(c) is not None], key=cstart)
+
+        def prior_store(c):
+            return any(p is not c and p['key'] == c['key'] and 'return' in p and p['return'] < c['invoke'] and
+                       isinstance(p.get('ret'), int) for p in calls) or bool(scn.get('pre') and c['key'] == 'k0')
+
+        legit = {}
+        for c in wr:
+            if c['force']:
+                legit[id(c)] = True
                 continue
-            prior_store = any(p is not c and p['key'] == c['key'] and 'return' in p and p['return'] < c['invoke'] and
-                              isinstance(p.get('ret'), int) for p in calls) or (scn.get('pre') and c['key'] == 'k0')
-            overlap = any(f is not c and f['key'] == c['key'] and not (f['return'] < c['invoke'] or f['invoke'] > c['return']) for f in forced)
-            if prior_store and not overlap:
-                d('I-no-recompute', 'call started after another call for the key had returned a stored value, yet recomputed (no writer overlapping)',
+            visible = prior_store(c) or any(v is not c and v['key'] == c['key'] and cstart(v) < c['invoke'] for v in wr)
+            if not visible:
+                legit[id(c)] = True
+                continue
+            legit[id(c)] = any(x is not c and x['key'] == c['key'] and legit.get(id(x)) and c['invoke'] <= cstart(x) < cstart(c) for x in wr)
+        for c in wr:
+            if not c['force'] and prior_store(c) and not legit[id(c)]:
+                d('I-no-recompute', 'call started after another call for the key had returned a stored value, yet recomputed (no legitimate writer began after it was invoked)',
                   call=[c['thread'], c['idx']], invoke=c['invoke'])
         # get that overlaps nobody and comes after a store must see the value
         writers = [c for c in calls if c['op'] == 'goc' and 'return' in c and c['computed']]
